@@ -24,7 +24,19 @@ RULE = ("logical documents of the shared subset (strings, ints, yes/no, n/8 floa
         "`any` targets on string-only documents -- each at 7 document positions, through text slice / tape / ObjectReader / TokenReader / "
         "from_*_reader / TextDeserializer::from_*_slice / from_encoded_tape and binary builder tape / slice / reader, BinaryFlavor::deserialize_slice / "
         "deserialize_reader and the deserializer-returning builder methods; oracle: the value computed from the abstract document for each format, "
-        "equality of the two where the property promises it; the same cases against the extracted walks (kinds_walk_text / kinds_walk_bin)")
+        "equality of the two where the property promises it; the same cases against the extracted walks (kinds_walk_text / kinds_walk_bin).  "
+        # [s_c10]
+        "sizes (props/C10_sizes.py, audit/C10.md `Size dimensions`): one size-like dimension at a time over the ladder 0 1 2 3 7 8 9 15 16 17 31 32 33 "
+        "63 64 65 127 128 129 255 256 257 1023 1024 1025 4095 4096 4097 65533 65534 65535 65536 on an otherwise small document: string, key, resolved-name "
+        "and enum-name lengths up to the binary u16 limit in both renderings (beyond it: text only), a backslash / quote / non-ASCII character at every "
+        "place of the decoders' 8-byte blocks, the default 32 KiB buffer of the stream entry points; counts of array elements, map entries, duplicates "
+        "of one key and unknown fields (to 65536), struct fields / Option fields / tuple elements / enum variants / colours (to 1025), consecutive ghost "
+        "`{}` (to 4097, in front / between / after the fields, nested); nesting depth of structs / maps / arrays / Option captured (to 1025) and of skipped "
+        "containers (to 70000); every integer width boundary inside arrays / maps / repeated fields, powers of ten, zero-padded numerals (to 65536 zeros), "
+        "1..24 fraction digits; Date / DateHour over the ladder of years -5000..32767 and inside containers; rgb channel counts; every non-lexeme token id "
+        "0x0000..0xffff as a key and as a value; gap / comment lengths of the text layout and offset x length pairs around the lexer's 8 / 16-byte blocks.  "
+        "Oracle: the value by construction (dedoc.expected on the abstract document, or spelled out next to the bytes), equality of the two renderings "
+        "wherever the binary format can express the document; the cases up to a few hundred bytes also against the extracted walks (sizes_walk_*)")
 TRUSTED = ["serde's primitive visitors; the flavor arithmetic is recomputed exactly in Python",
            "Date::from_binary / Date::parse agreement is C13 (proved there); here it is exercised through both deserializers",
            # [spec_tie]
@@ -136,6 +148,13 @@ def run(ctx):
     from props import C10_ext
     C10_ext.run(ctx)
     # <<< w_c10
+
+    # >>> s_c10 (wave 6): size / boundary ladders -- one size-like dimension at a time up the ladder 0 1 2 3 7 8 9 .. 65535 65536
+    # (string / key / name lengths, element / field / duplicate / ghost counts, nesting depth captured and skipped, digits,
+    # years, token ids, gap lengths), expectations by construction (props/C10_sizes.py; audit/C10.md "Size dimensions")
+    from props import C10_sizes
+    C10_sizes.run(ctx)
+    # <<< s_c10
 
     # scalar level of both formats against the extracted Serde model
     from props import descalar
